@@ -303,16 +303,23 @@ Section LfudaBridge.
     unfold bind. crush; finish.
   Qed.
 
-  Lemma mit_find_some (ix : list (K * nat)) k : negb (mit_eqb (mit_find ix k) None) = match assoc k ix with Some _ => true | None => false end.
-  Proof. unfold mit_find. destruct (assoc k ix); reflexivity. Qed.
+  (* ---- the lookups: m_keyed_elements.find(key) compared with end() ----
+     The proofs below never look at HOW the generated code tests the result of the find (== end() or != end(),
+     end() on the left or on the right, if/else or an early return, inline or through a private helper the
+     translator inlined, an element reference or an element pointer compared with nullptr): they split on the
+     SEMANTIC fact — is the key in the index? — and let [gred] compute every such test on both sides. *)
+  Ltac gred := repeat progress (proj; cbn [bind negb andb orb mit_eqb opt_has_value ptr_deref opt_value]).
+  (* [ixcase k s n A]: is key [k] in the index of [s]?  (find, it->second and every test on the iterator reduce) *)
+  Ltac ixcase k s n A :=
+    unfold mit_find, mit_second;
+    destruct (assoc k (dl_index s)) as [n|] eqn:A; gred; rewrite ?A; gred.
 
   Lemma g_do_insert_update_ok (s : lfdl K V) k v now a : req (g_do_insert_update s k v now a) (dl_ins true s k v a now).
   Proof.
-    unfold g_do_insert_update, dl_ins. rewrite mit_find_some. unfold mit_find.
-    destruct (assoc k (dl_index s)) as [n|] eqn:A.
-    - destruct (a_upd a); [|simpl; auto].
+    unfold g_do_insert_update, dl_ins. ixcase k s n A.
+    - destruct (a_upd a); gred; [|simpl; auto].
       callee (g_do_update_ok s k n v now A). unfold bind. crush; finish.
-    - destruct (a_ins a); [|simpl; auto].
+    - destruct (a_ins a); gred; [|simpl; auto].
       callee (g_do_insert_ok s k v now A). unfold bind. crush; finish.
   Qed.
 
@@ -334,37 +341,35 @@ Section LfudaBridge.
 
   Ltac find_tail := unfold bind, vget, val_pair; crush.
 
+  (* the shared shape of do_find / do_find_with_use_count: key present at node n; is n a node of the list (the
+     element reference binds)?; peek or access; then the reads through the element *)
+  Ltac find_body s k pk now n A :=
+    cbn [l_deref];
+    destruct (mem_nat n (dl_list s)) eqn:M; gred;
+    [ destruct pk; gred;
+      [ unfold dcell_of; cbn [l_deref]; rewrite M; find_tail
+      | callee (g_do_access_ok s n now M);
+        let DA := fresh "DA" in
+        destruct (g_do_access s n now) as [s1|], (dl_access true s n now) as [s2|] eqn:DA; gred; intros P; try contradiction; auto;
+        subst; unfold dcell_of; cbn [l_deref]; rewrite (dl_access_mem _ _ _ _ n DA), M; find_tail ]
+    | destruct pk; gred; unfold dl_access, dcell_of; cbn [l_deref]; rewrite M; simpl; auto ].
+
   Lemma g_do_find_ok (s : lfdl K V) k pk now : req (g_do_find s k pk now) (dl_find true s k pk now).
   Proof.
-    unfold g_do_find, dl_find. rewrite mit_find_some. unfold mit_find, mit_second.
-    destruct (assoc k (dl_index s)) as [n|] eqn:A; [|simpl; auto]. rewrite A. red1. cbn [l_deref].
-    destruct (mem_nat n (dl_list s)) eqn:M; red1.
-    - destruct pk; cbn [negb]; red1.
-      + unfold dcell_of. cbn [l_deref]. rewrite M. find_tail.
-      + callee (g_do_access_ok s n now M).
-        destruct (g_do_access s n now) as [s1|], (dl_access true s n now) as [s2|] eqn:DA; red1; intros P; try contradiction; auto.
-        subst. unfold dcell_of. cbn [l_deref]. rewrite (dl_access_mem _ _ _ _ n DA), M. find_tail.
-    - destruct pk; red1; unfold dl_access, dcell_of; cbn [l_deref]; rewrite M; simpl; auto.
+    unfold g_do_find, dl_find. ixcase k s n A; [|simpl; auto].
+    find_body s k pk now n A.
   Qed.
 
   Lemma g_do_find_with_use_count_ok (s : lfdl K V) k pk now :
     req (g_do_find_with_use_count s k pk now) (dl_find_use true s k pk now).
   Proof.
-    unfold g_do_find_with_use_count, dl_find_use. rewrite mit_find_some. unfold mit_find, mit_second.
-    destruct (assoc k (dl_index s)) as [n|] eqn:A; [|simpl; auto]. rewrite A. red1. cbn [l_deref].
-    destruct (mem_nat n (dl_list s)) eqn:M; red1.
-    - destruct pk; cbn [negb]; red1.
-      + unfold dcell_of. cbn [l_deref]. rewrite M. find_tail.
-      + callee (g_do_access_ok s n now M).
-        destruct (g_do_access s n now) as [s1|], (dl_access true s n now) as [s2|] eqn:DA; red1; intros P; try contradiction; auto.
-        subst. unfold dcell_of. cbn [l_deref]. rewrite (dl_access_mem _ _ _ _ n DA), M. find_tail.
-    - destruct pk; red1; unfold dl_access, dcell_of; cbn [l_deref]; rewrite M; simpl; auto.
+    unfold g_do_find_with_use_count, dl_find_use. ixcase k s n A; [|simpl; auto].
+    find_body s k pk now n A.
   Qed.
 
   Lemma g_erase_ok (s : lfdl K V) k : req (g_erase s k) (dl_erase s k).
   Proof.
-    unfold g_erase, dl_erase. rewrite mit_find_some. unfold mit_find, mit_second.
-    destruct (assoc k (dl_index s)) as [n|] eqn:A; [|simpl; auto]. rewrite A. cbn [bind].
+    unfold g_erase, dl_erase. ixcase k s n A; [|simpl; auto].
     callee (g_do_erase_ok s n). unfold bind. crush; finish.
   Qed.
 
@@ -391,9 +396,8 @@ Section LfudaBridge.
     match goal with |- req (bind (foldM ?F _ _) _) _ =>
       assert (G : forall l s n, req (foldM F l (s, n)) (dl_erase_range s l n)) end.
     { clear. induction l as [|k r IH]; intros s n; simpl; auto.
-      rewrite mit_find_some. unfold dl_erase, mit_find, mit_second.
-      destruct (assoc k (dl_index s)) as [idx|] eqn:A; cbn [bind]; [|apply IH].
-      rewrite A. cbn [bind]. callee (g_do_erase_ok s idx).
+      unfold dl_erase. ixcase k s idx A; [|apply IH].
+      callee (g_do_erase_ok s idx).
       destruct (g_do_erase s (It idx)) as [s1|], (dl_do_erase s idx) as [s2|]; simpl; intros P; try contradiction; auto.
       subst. match goal with |- req (foldM _ _ (_, ?n1)) (dl_erase_range _ _ ?n2) => samen n1 n2 end. apply IH. }
     specialize (G l s 0). revert G.
